@@ -262,8 +262,8 @@ def raw_getters_same(ctx, n_random):
     (generator/src/graph/optimized_rule.rs and its twin graph/rule.rs) are the same -- type and path, compared code against code"""
     gendump.build()
     texts = corpus_texts(ctx.seed, n_random)
-    a = gendump.dump([("p%d" % i, t, {"emit_rule_reference": "true"}) for i, t in enumerate(texts)])
-    b = gendump.dump([("q%d" % i, t, {"emit_rule_reference": "true", "pest_optimizer": "false"}) for i, t in enumerate(texts)])
+    a = gendump.dump([("p%d" % i, t, {"emit_rule_reference": True}) for i, t in enumerate(texts)])
+    b = gendump.dump([("q%d" % i, t, {"emit_rule_reference": True, "pest_optimizer": False}) for i, t in enumerate(texts)])
     n = bad = 0
     for i, t in enumerate(texts):
         ra, rb = a["p%d" % i], b["q%d" % i]
